@@ -92,6 +92,8 @@ pub(crate) struct SimplexPipe<F> {
     pending_chunk: Option<Data>,
     direction: SimplexDirection,
     last_activity: Instant,
+    /// The source reported end of stream and it was relayed and flushed
+    finished: bool,
 }
 
 pub(crate) struct Error<T> {
@@ -136,6 +138,7 @@ impl<F: Fn(SimplexDirection, usize) + Send> SimplexPipe<F> {
             pending_chunk: Default::default(),
             direction,
             last_activity: Instant::now(),
+            finished: false,
         }
     }
 
@@ -145,6 +148,10 @@ impl<F: Fn(SimplexDirection, usize) + Send> SimplexPipe<F> {
         id: T,
         timeout: Duration,
     ) -> Result<ExchangeOnceStatus<T>, Error<T>> {
+        if self.finished {
+            return Ok(ExchangeOnceStatus::Finished(id));
+        }
+
         loop {
             self.last_activity = Instant::now();
 
@@ -200,12 +207,12 @@ impl<F: Fn(SimplexDirection, usize) + Send> SimplexPipe<F> {
                 }
                 Data::Eof => {
                     self.sink.eof().map_err(|e| io_to_pipe_error(id, e))?;
-                    break self
-                        .sink
+                    self.sink
                         .flush()
                         .await
-                        .map(|()| ExchangeOnceStatus::Finished(id))
-                        .map_err(|e| io_to_pipe_error(id, e));
+                        .map_err(|e| io_to_pipe_error(id, e))?;
+                    self.finished = true;
+                    break Ok(ExchangeOnceStatus::Finished(id));
                 }
             }
         }
@@ -277,7 +284,10 @@ impl<F: Fn(SimplexDirection, usize) + Send + Clone> DuplexPipe<F> {
                             "\"dir\":\"{}\"",
                             if dir == SimplexDirection::Outgoing { "out" } else { "in" }
                         );
-                        Err(io_to_pipe_error(dir, ErrorKind::TimedOut.into()))
+                        // Let the caller decide: the finished direction may have been
+                        // active less than the timeout ago
+                        log_dir!(trace, id, dir, "Pipe timed out");
+                        return Ok(ExchangeOnceStatus::TimedOut(()));
                     }
                     Err(e) => Err(e),
                 };
